@@ -4,7 +4,8 @@ From Coq Require Import String.
 From Coq Require Import List Ascii ZArith Bool.
 From CGV Require Import Base.PyBase Base.PyVal Base.NxGraph Dialect.DialectImpl Reader.ReaderImpl Reader.Grammar
      Reader.ReaderCheck Reader.Lin Reader.ReaderSim Reader.ReaderMult Reader.ReaderUnit Reader.ReaderUnitLong Reader.ReaderEnd
-     Gen.ReaderEnumGen Reader.ReaderSmall.
+     Gen.ReaderEnumGen Reader.ReaderSmall
+     Reader.ReaderTrack Reader.ReaderGSegs Reader.ReaderGLong.
 Import ListNotations.
 Open Scope Z_scope.
 
@@ -91,9 +92,10 @@ Proof. vm_compute. repeat split. eexists. split; reflexivity. Qed.
     anchors joined by the symbol before '|', the symbol after |n leaving the last anchor) as the SAME graph
     with the SAME numbering; likewise with the node multipliers written out too.  This is the shape of the
     documented polymer examples, e.g. {[#PMA]([#PEO][#PEO])|3}.
-    Missing from the full statement: units inside other branches and multiplied branches that are not the
-    first branch of their anchor (both only bounded: C05_small), nested branches / rings inside units
-    (refuted below), texts without braces. *)
+    The general form - units inside other branches and behind sibling branches - is C05_branch_partial_gen below.
+    Missing from the full statement: nested branches / rings inside units and units where a branch was closed
+    since the outermost open branch was opened (refuted below: nested_in_unit, ring_in_unit, stale_recipe),
+    texts without braces. *)
 Theorem C05_branch_partial : forall fo l, segs_ok fo l = true ->
   read_cgsmiles fo (segs_text l) = read_cgsmiles fo (base_text (segs_long l)).
 Proof. exact reader_units_shorthand. Qed.
@@ -120,6 +122,42 @@ Example C05_branch_nonvacuous :
   /\ exists g, read_cgsmiles fo0 (segs_text l) = Ok g /\ length (nodes_data g) = 15%nat.
 Proof. vm_compute. repeat split. eexists. split; reflexivity. Qed.
 
+(** UNBOUNDED, multiplied branches AT ANY DEPTH and BEHIND SIBLING BRANCHES of their anchor.  A text is a list of
+    flat items and multiplied branches "(" simple chain ")" sym? "|" n sym? (Reader/ReaderGSegs.v); the anchor of a
+    multiplied branch is the node in front of it, possibly with sibling branches in between; the branch may stand
+    inside any number of open branches.  Side condition [gsegs_ok]: the items are items of the grammar, parentheses
+    balance, a multiplied branch names its anchor and the order of the bond that reaches its first node, and the
+    recipe table is in order where it stands ([gtrack]: since the outermost open branch was opened, nothing was
+    closed except sibling branches of the multiplied branch's own anchor directly in front of it - the complement
+    is the defect class stale_recipe) and it contains neither ring markers nor nested branches (ring_in_unit,
+    nested_in_unit).  Then the reader model reads the shorthand and the longhand (branch and anchor written out n
+    times) as the SAME graph with the SAME numbering. *)
+Theorem C05_branch_partial_gen : forall fo l, gsegs_ok fo l = true ->
+  read_cgsmiles fo (gsegs_text l) = read_cgsmiles fo (base_text (gsegs_long l)).
+Proof. exact reader_gunits_shorthand. Qed.
+Theorem C05_branch_partial_gen_expanded : forall fo l, gsegs_ok fo l = true ->
+  read_cgsmiles fo (gsegs_text l) = read_cgsmiles fo (base_text (expand_lin (gsegs_long l))).
+Proof. exact reader_gunits_fully_expanded. Qed.
+(** non-vacuity: a multiplied branch inside a branch and behind a sibling branch, and one at top level behind a
+    sibling branch *)
+Definition gpl (o : bool) (n : string) (c : option (option sym)) : gseg :=
+  GPlain {| l_open := o; l_name := S n; l_mult := None; l_rings := []; l_bond := None; l_close := c |}.
+Example C05_branch_gen_nonvacuous :
+  let u1 := {| u_name := S "A"; u_mult := None; u_bond := None;
+               u_body := [{| bn_name := S "C"; bn_mult := None; bn_bond := None |};
+                          {| bn_name := S "D"; bn_mult := Some [2%nat]; bn_bond := None |}];
+               u_ms := Some SDouble; u_count := [2%nat]; u_after := Some SQuad |} in
+  let u2 := {| u_name := S "F"; u_mult := None; u_bond := None;
+               u_body := [{| bn_name := S "H"; bn_mult := None; bn_bond := None |}];
+               u_ms := None; u_count := [3%nat]; u_after := None |} in
+  let l := [gpl false "X" None; gpl true "A" None; gpl true "B" (Some None); GUnit u1; gpl false "E" (Some None);
+            gpl false "F" None; gpl true "G" (Some None); GUnit u2] in
+  gsegs_ok fo0 l = true
+  /\ gsegs_text l = S "{[#X]([#A]([#B])([#C][#D]|2)=|2$[#E])[#F]([#G])([#H])|3}"
+  /\ base_text (gsegs_long l) = S "{[#X]([#A]([#B])([#C][#D]|2)=[#A]([#C][#D]|2)$[#E])[#F]([#G])([#H])[#F]([#H])[#F]([#H])}"
+  /\ exists g, read_cgsmiles fo0 (gsegs_text l) = Ok g /\ length (nodes_data g) = 18%nat.
+Proof. vm_compute. repeat split. eexists. split; reflexivity. Qed.
+
 (** BOUNDED: on the complete enumerated list [small_c05] (ASTs with <= 3 nodes and up to two multipliers
     from {2,3} on nodes / {1,2,3} on branches, symbols {none,#}; and <= 4 nodes, multipliers 2 on nodes /
     {2,3} on branches, at most one '='), outside the defect classes, and when no multiplied unit contains a nested
@@ -131,6 +169,8 @@ Proof. exact C05_small_nonvacuous. Qed.
 
 Print Assumptions C05_branch_partial.
 Print Assumptions C05_branch_partial_expanded.
+Print Assumptions C05_branch_partial_gen.
+Print Assumptions C05_branch_partial_gen_expanded.
 Print Assumptions C05_nodes_partial.
 Print Assumptions C05_nodes_partial_nobrace.
 Print Assumptions C05_denote_expand.
